@@ -293,6 +293,33 @@ def eval_split(ctx, case):
         ctx.count("arg_errors")
         return
     lay = layout_class(content, m)
+    # the same text split WITHOUT option validation (validate_options=False: the block is read as YAML): arguments, body and offset are the same split
+    if case.get("novalidate") or (len(content) + len(first)) % 5 == 0:
+        try:
+            r2 = parse_directive_text(cls, first, content, validate_options=False, additional_options=additional)
+        except MarkupError:
+            r2 = None
+        except Exception as e:  # noqa: BLE001
+            sig = core.exc_signature(e)
+            ctx.violation(f"raises:novalidate:{sig['type']}:{sig['myst']}", f"parse_directive_text(validate_options=False) raised {sig['type']}: {sig['msg']}", case, sig)
+            return
+        ctx.count("novalidate_compared")
+        if r2 is None:
+            ctx.violation("novalidate:argument-error-only-without-validation", "the argument count is only rejected when validate_options=False", case)
+        elif r2.arguments != r.arguments or rstrip_list(r2.body) != rstrip_list(r.body) or (rstrip_list(r.body) and r2.body_offset != r.body_offset):
+            ctx.violation(f"novalidate:split-differs:{lay}", f"validate_options=False splits into arguments {r2.arguments!r} body {r2.body!r} offset {r2.body_offset}; with validation {r.arguments!r} {r.body!r} {r.body_offset}", case)
+        elif m.has_block and not m.tokenize_failed and isinstance(r2.options, dict):
+            try:
+                import yaml as _y
+
+                blk = "\n".join(m.opt_lines) if content.startswith("---") else "\n".join(l.lstrip()[1:] for l in m.opt_lines)
+                if content.startswith("---"):
+                    blk = dedent(blk)
+                want = _y.safe_load(blk) or {}
+            except Exception:  # noqa: BLE001
+                want = None
+            if isinstance(want, dict) and r2.options != want:
+                ctx.violation("novalidate:options-not-the-yaml-mapping", f"validate_options=False returns options {r2.options!r}; the block as YAML is {want!r}", case)
     if r.arguments != m.arguments:
         ctx.violation("arguments:value", f"arguments {r.arguments!r}, model {m.arguments!r}", case)
     if rstrip_list(r.body) != rstrip_list(m.body):
